@@ -4,7 +4,8 @@ import sys, time, os, collections, warnings
 warnings.filterwarnings('ignore')
 sys.path.insert(0, os.path.dirname(os.path.dirname(os.path.abspath(__file__))))
 from artapsim.decisions import Decisions
-from artapsim import core, driver
+from artapsim import core, driver, seams
+seams.install()      # before any property module imports artap (VERIF_REPO must win over the editable install)
 pid = sys.argv[1].upper(); mod = driver.load(pid)
 t = time.time(); out = collections.Counter(); sig = set(); st = collections.Counter(); pr = collections.Counter(); shown = 0
 for s in range(int(sys.argv[2]), int(sys.argv[3])):
